@@ -682,13 +682,30 @@ func genC12(tr *vhlib.Trace, r *vhlib.Rand, rpc bool) {
 	}
 	rh := pickU64(r, math.MaxUint64, math.MaxUint64, math.MaxUint64, math.MaxUint64, math.MaxUint64, 1<<40, 1<<40, h+s.WS+10, h+s.WS, h+1, h)
 	kind := r.Intn(100)
+	// while the RPC is in flight: blocks connect between the RPC id and the request body (dh1) and before the
+	// renter's signatures (dh2), the host's settings change (sc).  hv is the height an honest renter aims at:
+	// the tip when the RPC starts, or the tip the host will see when it validates.
+	var d dyn
+	hv := h
+	if rpc && r.Chance(3, 10) {
+		d.dh1 = pickU64(r, 1, 1, 2, 5)
+		if kind < 67 && r.Chance(1, 2) {
+			hv = h + d.dh1
+		}
+	}
+	if rpc && r.Chance(1, 12) {
+		d.dh2 = pickU64(r, 1, 3)
+	}
+	if rpc && r.Chance(1, 15) {
+		d.sc = 1
+	}
 	switch {
 	case kind < 34: // formation
-		f := honestFormation(r, h, s)
+		f := honestFormation(r, hv, s)
 		mutateContract(r, &f)
 		mutateSettingsArg(r, &s, &h)
 		if rpc {
-			doRPCForm2(tr, f, rk, h, rh, s, badSig(r))
+			doRPCForm2(tr, f, rk, h, rh, s, badSig(r), d)
 		} else {
 			doForm(tr, f, rk, h, s)
 		}
@@ -704,7 +721,7 @@ func genC12(tr *vhlib.Trace, r *vhlib.Rand, rpc bool) {
 			flat = s.RC
 		}
 		// window end first (it determines the base costs), then payouts
-		probe := honestRenewal(r, e, h, s, bi(0), bi(0), v3)
+		probe := honestRenewal(r, e, hv, s, bi(0), bi(0), v3)
 		base, risk := baseFor(flat, s, e, probe.WE)
 		if base.Cmp(two128) >= 0 || risk.Cmp(two128) >= 0 || add(base, risk).Cmp(two128) >= 0 {
 			if !rpc || r.Chance(2, 3) { // mostly avoid the overflow region, but keep some
@@ -713,7 +730,7 @@ func genC12(tr *vhlib.Trace, r *vhlib.Rand, rpc bool) {
 				base, risk = baseFor(flat, s, e, probe.WE)
 			}
 		}
-		f := honestRenewal(r, e, h, s, new(big.Int).Mod(base, two128), new(big.Int).Mod(risk, two128), v3)
+		f := honestRenewal(r, e, hv, s, new(big.Int).Mod(base, two128), new(big.Int).Mod(risk, two128), v3)
 		f.WS, f.WE = probe.WS, probe.WE
 		mutateContract(r, &f)
 		mutateSettingsArg(r, &s, &h)
@@ -758,9 +775,9 @@ func genC12(tr *vhlib.Trace, r *vhlib.Rand, rpc bool) {
 				if r.Chance(1, 6) {
 					mutate(r, &k, e)
 				}
-				doRPCRenew3(tr, e, k, f, rk, h, rh, s, badSig(r))
+				doRPCRenew3(tr, e, k, f, rk, h, rh, s, badSig(r), d)
 			} else {
-				doRPCRenew2(tr, e, f, fv, rk, h, rh, s, badSig(r))
+				doRPCRenew2(tr, e, f, fv, rk, h, rh, s, badSig(r), d)
 			}
 			return
 		}
